@@ -779,6 +779,8 @@ class Interp:
         if isinstance(o, ExcInst):
             if name == "args":
                 return o.args
+            if name in getattr(o, "attrs", {}):  # extra attributes a contract's model put on the exception (ParseException.loc)
+                return o.attrs[name]
             raise_py("AttributeError", name)
         if isinstance(o, Sym):
             raise Unsupported(f"attribute {name} of symbolic scalar")
